@@ -17,12 +17,14 @@ P("C29",
              "(one numbered bounded channel per switch output port, routes from the C30 model of FindPort): for every grid, capacities >= 1, message set and "
              "arbitration, executions are finite, never deadlock, conserve the messages and every maximal execution delivers every message exactly once; "
              "c29_tree_delivery_progress is the same for every tree (PCIe: nodes numbered in creation order with parent(v) < v, an up and a down channel per link, "
-             "up-then-down shortest-path routing, depth-based channel ranking). Every run of the check executes real mesh 2D/3D, PCIe, NVLink/PCIe and generic "
+             "up-then-down shortest-path routing, depth-based channel ranking); c29_tree_routes_are_c30_tables proves that on every graph that is a tree up to node "
+             "numbering the table C30's Floyd-Warshall model computes names, port-accurately, exactly the next node of that tree route (and its distance is the "
+             "route length), so the tree theorem speaks about the tables the code computes; c29_tree_certificate_sound makes the tree hypotheses decidable and the "
+             "check evaluates the certificate on the graph of every generated PCIe network. Every run of the check executes real mesh 2D/3D, PCIe, NVLink/PCIe and generic "
              "networks to quiescence, feeds the device-port event list to the acceptor inside Coq, and ties flit counts and switch paths of the real traffic to the C31/C30 models.",
   level_note="PARTIAL: the switch pipeline internals (receive pipeline, route/forward/send-out buffers, round-robin arbitration) are "
              "not modelled line by line; they are covered by trace inclusion of sampled real runs and by the abstract channel network (every buffer on a flit's way = "
-             "one bounded FIFO channel), which is instantiated and proved deadlock-free and exactly-once for meshes and trees. The tree routing of the instantiation is the "
-             "unique shortest path, which is what Floyd-Warshall computes on a tree (C30 c30_fw_shortest), but that identification is not formalised; NVLink hybrids and "
+             "one bounded FIFO channel), which is instantiated and proved deadlock-free and exactly-once for meshes and trees. NVLink hybrids and "
              "general graphs (rings can deadlock with bounded buffers) have no progress theorem, only the tie.",
   assumptions=["message IDs handed to the network are unique and the sending port is the message's Src (generator obligation, re-checked by the acceptor)",
                "devices keep draining their ports (the scripted devices drain 1-2 messages per port every 1-3 ticks)",
